@@ -352,7 +352,7 @@ def per_state(spec, seq, w0):
 
 
 def _plain(spec):
-    return {k: (list(v) if isinstance(v, tuple) else v) for k, v in spec.items()}
+    return {k: (list(v) if isinstance(v, tuple) else v) for k, v in spec.items() if k != "explicit"}
 
 
 def replay(rec, verbose=False):
